@@ -100,13 +100,27 @@ def _worker_run(arg):
     return idx, res
 
 
-def replay_case(pid, mod, case):
-    """Re-execute one violation case.  A case {"__shard__": item} stands for the whole
-    (deterministic) execution sequence of that shard."""
+def _replay_here(arg):
+    pid, case = arg
+    mod = load_check(pid)
     if isinstance(case, dict) and "__shard__" in case:
         _i, r = _worker_run((pid, 0, case["__shard__"]))
         return r
-    return mod.replay(case)
+    try:
+        return mod.replay(case)
+    except BaseException as e:
+        return {"harness_error": "replay failed:\n" + "".join(traceback.format_exception(type(e), e, e.__traceback__))[-3000:]}
+
+
+def replay_case(pid, mod, case):
+    """Re-execute one violation case in a freshly forked child of this (pristine) process, so that
+    confirmations do not see each other's side effects.  A case {"__shard__": item} stands for the
+    whole (deterministic) execution sequence of that shard."""
+    if os.environ.get("VERIF_REPLAY_INPROC"):
+        return _replay_here((pid, case))
+    ctx = multiprocessing.get_context("fork")
+    with ctx.Pool(1, initializer=_worker_init, maxtasksperchild=1) as pool:
+        return pool.apply(_replay_here, ((pid, case),))
 
 
 def run_shards(pid: str, items, workers: int, seed: int):
@@ -123,7 +137,10 @@ def run_shards(pid: str, items, workers: int, seed: int):
             results[i] = r
     else:
         ctx = multiprocessing.get_context("fork")
-        with ctx.Pool(min(workers, len(items)), initializer=_worker_init) as pool:
+        # maxtasksperchild=1: every shard runs in a fresh fork of the pristine parent, so what a shard observes
+        # depends on nothing but its own (deterministic) execution sequence - "the shard is the replay" holds
+        # also for process-global state leaking inside the library
+        with ctx.Pool(min(workers, len(items)), initializer=_worker_init, maxtasksperchild=1) as pool:
             for i, r in pool.imap_unordered(_worker_run, args, chunksize=1):
                 results[i] = r
     return results
@@ -286,7 +303,7 @@ def main(argv=None):
             else:
                 new.append(v)
         # the harness never reports what it cannot reproduce (DESIGN.md 5.7)
-        confirmed = []
+        confirmed, unconfirmed = [], []
         for v in new[:40]:
             r = replay_case(pid, mod, v["case"])
             if "harness_error" in r:
@@ -302,11 +319,17 @@ def main(argv=None):
                 if "harness_error" in r2:
                     raise HarnessError(r2["harness_error"])
                 if v["sig"] not in r2.get("violations", {}):
-                    raise HarnessError("violation %s did not reproduce when its case was re-executed: %s" % (v["sig"], json.dumps(v["case"])[:400]))
+                    unconfirmed.append(v)
+                    continue
                 v = dict(v, case={"__shard__": shard, "first_failing_case": v["case"]},
                          note=((v.get("note") or "") + " [history-dependent: the case passes when executed alone in a fresh process and fails "
                                "within the shard's execution sequence, i.e. state leaks between library calls; replay re-executes the shard]").strip())
             confirmed.append(v)
+        for v in unconfirmed:
+            print("UNCONFIRMED [%s]: %s did not reproduce, neither alone nor in its shard: %s" % (pid, v["sig"], json.dumps(v["case"])[:300]), file=sys.stderr)
+        if unconfirmed and not confirmed:
+            # nothing reproducible to show: that is a defect of the harness (non-determinism), never a verdict
+            raise HarnessError("%d violation signature(s) did not reproduce when re-executed, e.g. %s" % (len(unconfirmed), unconfirmed[0]["sig"]))
         wall = time.time() - t0
         if not a.no_evidence:
             write_evidence(pid, mod, a.tier, seed, agg, wall, len(confirmed), extra_cov)
